@@ -2,6 +2,7 @@
 # Offline setup after a fresh restore: build the whole Coq development (full .vo),
 # refuse forbidden vernacular, pre-build the Go harness binaries.
 set -e
+ulimit -s unlimited 2>/dev/null || true
 cd "$(dirname "$0")"
 export GOFLAGS=-mod=mod GOPROXY=off GOSUMDB=off GOTOOLCHAIN=local
 if grep -rnE '\b(Admitted|admit|Axiom|Parameter|Conjecture|Admit Obligations)\b|Unset Guard|bypass_check|type-in-type|impredicative-set' coq/Lib coq/Spec coq/Model coq/Proofs coq/Props coq/templates --include='*.v' | grep -v '^\S*:[0-9]*:\s*(\*' ; then
